@@ -120,6 +120,20 @@ def run_op(nodes, src, n, kind, op, arg, case):
             elif op == 'args-reassign-identity':
                 order = list(range(k))
                 t.args = t.args
+            elif op == 'args-swap-ends-inplace':
+                order = list(range(k))
+                if k >= 2:
+                    order[0], order[-1] = order[-1], order[0]
+                    a = t.args
+                    a[0], a[-1] = a[-1], a[0]
+            elif op == 'args-slice-assign-inplace':
+                order = list(range(k))[::-1]
+                a = t.args
+                a[:] = list(a)[::-1]
+            elif op == 'args-sort-inplace':
+                a = t.args
+                order = sorted(range(k), key=lambda i: str(cur[i]))
+                a.sort(key=str)
             else:
                 raise H.HarnessError(op)
             saved = n.args
@@ -186,11 +200,13 @@ def check_doc(nodes, src, case, res):
         na = len(n.args)
         if kind in ('cmd', 'env', 'item') and na >= 1 and all(a.kind != 'cmdarg' for a in n.args):
             pool = [('args-reversed', None), ('args-prefix', na - 1), ('args-tail', None), ('args-reverse-inplace', None),
-                    ('args-reverse-reassign-own-list', None), ('args-reassign-identity', None), ('args-step', None)]
+                    ('args-reverse-reassign-own-list', None), ('args-reassign-identity', None), ('args-step', None),
+                    ('args-swap-ends-inplace', None), ('args-slice-assign-inplace', None), ('args-sort-inplace', None)]
             if na >= 3:
                 pool.append(('args-permute', tuple([1, 2, 0] + list(range(3, na)))))
             ops.append(pool[k % len(pool)])
             ops.append(pool[(k + 3) % len(pool)])
+            ops.append(pool[(k + 7) % len(pool)])
         k += 1
         for op, arg in ops:
             ecase = dict(case, op=op, arg=arg, target=n.span[0])
